@@ -274,6 +274,10 @@ type Scenario struct {
 	ExtraArgs []string // extra key=value tokens on the batch line
 	// Hot: the rarely taken choices of generator and file writers are taken with probability one half (see hotGen)
 	Hot bool `json:",omitempty"`
+	// WeatherStartsLate: the multi-year weather file begins after the simulation start (one project of the C03 batch sessions);
+	// SisterWeatherFolder holds the complete series
+	WeatherStartsLate   bool   `json:",omitempty"`
+	SisterWeatherFolder string `json:",omitempty"`
 	// SessionWarmup: a sister project (own fertiliser table with other contents) is run first in the same session (C10, 10 %)
 	SessionWarmup bool `json:",omitempty"`
 	// SoilClassicCols: the csv soil file keeps the columns of the classic file next to the documented ones (forced for one project of a batch session)
